@@ -430,6 +430,70 @@ def flags_to_branches(fn: ast.AST, unknown: Set[str]) -> int:
     return done
 
 
+# --------------------------------------------------------------------------- collect-then-act pipelines
+def unfold_pipelines(fn: ast.AST, unknown: Set[str]) -> int:
+    """`V = [t for t in SRC if C]` (V unknown, used once, as the iterable of the next loop / comprehension) is fused into that
+    use, and `L.extend(e for t in it if c)` becomes `for t in it: if c: L.append(e)` - the single loop a `split into collect and
+    act` refactoring started from."""
+    done = 0
+    for b in list(_blocks(fn)):
+        i = 0
+        while i < len(b):
+            st = b[i]
+            # L.extend(<generator or list comprehension>)
+            if isinstance(st, ast.Expr) and isinstance(st.value, ast.Call) and isinstance(st.value.func, ast.Attribute) and st.value.func.attr == "extend" \
+                    and len(st.value.args) == 1 and isinstance(st.value.args[0], (ast.GeneratorExp, ast.ListComp)) and len(st.value.args[0].generators) == 1:
+                g = st.value.args[0]
+                c = g.generators[0]
+                body: List[ast.stmt] = [ast.Expr(value=ast.Call(func=ast.Attribute(value=st.value.func.value, attr="append", ctx=ast.Load()), args=[g.elt], keywords=[]))]
+                for cond in reversed(c.ifs):
+                    body = [ast.If(test=cond, body=body, orelse=[])]
+                tgt = copy.deepcopy(c.target)
+                for t in ast.walk(tgt):
+                    if isinstance(t, (ast.Name, ast.Tuple, ast.List)):
+                        t.ctx = ast.Store()
+                b[i] = ast.copy_location(ast.For(target=tgt, iter=c.iter, body=body, orelse=[], type_comment=None), st)
+                ast.fix_missing_locations(b[i])
+                done += 1
+                continue
+            i += 1
+    # V = [t for t in SRC if C]; for t2 in V: BODY
+    for v in sorted(unknown):
+        names = [x for x in ast.walk(fn) if isinstance(x, ast.Name) and x.id == v]
+        if len(names) != 2:
+            continue
+        for b in _blocks(fn):
+            for i, st in enumerate(b):
+                if not (isinstance(st, ast.Assign) and len(st.targets) == 1 and isinstance(st.targets[0], ast.Name) and st.targets[0].id == v
+                        and isinstance(st.value, ast.ListComp) and len(st.value.generators) == 1):
+                    continue
+                c = st.value.generators[0]
+                if not (isinstance(st.value.elt, ast.Name) and isinstance(c.target, ast.Name) and st.value.elt.id == c.target.id):
+                    continue
+                user = next((u for u in b[i + 1:] if isinstance(u, ast.For) and isinstance(u.iter, ast.Name) and u.iter.id == v and isinstance(u.target, ast.Name)), None)
+                if user is None:
+                    continue
+                # statements in between must not touch the source
+                ren = {c.target.id: user.target.id}
+
+                class R(ast.NodeTransformer):
+                    def visit_Name(self, n):
+                        if n.id in ren:
+                            return ast.copy_location(ast.Name(id=ren[n.id], ctx=n.ctx), n)
+                        return n
+                conds = [R().visit(copy.deepcopy(x)) for x in c.ifs]
+                body = user.body
+                for cond in reversed(conds):
+                    body = [ast.copy_location(ast.If(test=cond, body=body, orelse=[]), user)]
+                user.iter = c.iter
+                user.body = body
+                b.remove(st)
+                ast.fix_missing_locations(user)
+                done += 1
+                break
+    return done
+
+
 def unknown_locals(tree: ast.Module, modname: str) -> Dict[str, Set[str]]:
     """per top-level function / method: the locals whose defining signature the reference tree does not know. Computed before
     the surface normalisation drops annotation-only statements (they are part of the signatures)."""
@@ -466,6 +530,7 @@ def inline_aliases(tree: ast.Module, modname: str, unknown_map: Optional[Dict[st
         n += loops_to_comprehensions(fn, unknown)
         n += worklist_to_recursion(fn, unknown)
         n += flags_to_branches(fn, unknown)
+        n += unfold_pipelines(fn, unknown)
     if n:
         ast.fix_missing_locations(tree)
     return n
